@@ -19,7 +19,6 @@ static int64_t nv_vec_end(const struct nv_vec* v) { return (int64_t)v->size; }
 static void nv_vec_erase(struct nv_vec* v, int64_t first, int64_t last)
 { __CPROVER_assert(0 <= first && first <= last && last <= (int64_t)v->size, "std::vector::erase: valid iterator range"); v->size = v->size - (uint64_t)(last - first); }
 static void nv_vec_emplace_back(struct nv_vec* v) { __CPROVER_assume(v->size < 1000000000); v->size = v->size + 1; }
-static uint64_t nv_vec_size(const struct nv_vec* v) { return v->size; }
 static struct nv_slice2 nv_t2_slice(const struct nv_tensor2d* t, int64_t b, int64_t e)
 { __CPROVER_assert(0 <= b && b <= e && e <= t->rows, "result_t: statistics slice inside the buffer"); struct nv_slice2 s; s.begin = b; s.end = e; return s; }
 static void nv_t2_assign_slice(struct nv_tensor2d* t, struct nv_slice2 s) { t->rows = s.end - s.begin; }
